@@ -63,9 +63,11 @@ PC = ['C11', 'C20']
 transparent('bridge_env.network_bridge.socket_interface.SocketInterface.__init__', props=P + PC)
 
 SIShape = Obj(SocketInterface, dict(ip_address=Const('localhost'), port=Const(2000)))
+from pyvc.dsl import Bool, Int, IntElem, Seq, TraceList
 SIOpenShape = Obj(SocketInterface, dict(
     ip_address=Const('localhost'), port=Const(2000),
-    _socket=Ext('socket', dict(closed=Const(False), connected=Const(False)))))
+    _socket=Ext('socket', dict(data=Seq(IntElem()), pos=Int(0), sent=TraceList(),
+                               closed=Const(False), connected=Bool()))))
 
 
 def _fresh_socket(s):
